@@ -27,6 +27,7 @@ Definition wire_extra (f : tfield) (v : tval) : Prop :=
       | GwText t => (g = 1 /\ exists b, ipv4_aton t = Ok b) \/ (g = 2 /\ exists b, ipv6_aton t = Ok b)
       | GwName n => g = 3 /\ Valid n
       end
+  | FSvcbRec, VSvcb p n _ => 0 <= p <= 65535 /\ Valid n
   | FAplRest, VApl items =>      (* struct "!HBB": family, prefix; `assert l < 128` for the address *)
       Forall (fun it : aplitem => let '(f, _, a, p) := it in 0 <= f <= 65535 /\ 0 <= p <= 255) items
   | _, _ => True
@@ -246,6 +247,16 @@ Proof.
       cbn [ctor_field] in Hc. apply orb_false_iff in E012 as [E01 E2]. apply orb_false_iff in E01 as [E0 E1].
       rewrite E0, E1, E2, E3 in Hc. inversion Hc; subst. cbn [wire_extra].
       split; [lia|]. split; [lia|]. split; [lia|]. eapply get_name_valid; eauto.
+  - (* FSvcbRec *)
+    destruct (svcb_from_text c st) as [[[[p n] ps] s4]| |] eqn:E; cbn [bind] in H; try discriminate. inversion H; subst.
+    cbn [ctor_field] in Hc. inversion Hc; subst. cbn [wire_extra].
+    unfold svcb_from_text in E.
+    destruct (get_uint max16 st 10) as [[p0 s1]| |] eqn:Ep; cbn [bind fst snd] in E; try discriminate.
+    destruct (get_name c s1) as [[n0 s2]| |] eqn:En; cbn [bind fst snd] in E; try discriminate.
+    match type of E with (do st1 <- ?e; _) = _ => destruct e as [s3| |]; cbn [bind] in E; try discriminate end.
+    destruct (svcb_params_loop (rem_fuel s3) s3 []) as [[ps0 s5]| |]; cbn [bind fst snd] in E; try discriminate.
+    destruct (svcb_ctor_ok ps0); try discriminate. inversion E; subst.
+    split; [pose proof (get_uint_range _ _ _ _ Ep) as G; unfold max16 in G; lia|eapply get_name_valid; eauto].
   - (* FAplRest *)
     destruct (get_remaining st 0) as [[toks s1]| |]; cbn [bind fst snd] in H; try discriminate.
     destruct (map_res apl_item_of_token toks) as [items| |] eqn:E; cbn [bind fst snd] in H; try discriminate.
